@@ -631,6 +631,10 @@ def run(ctx):
     sub = SubCtx(ctx, "R5", prefix="environmental selection: ")
     c03.r1_cmp(sub, repo)
     c03.r2_truncate(sub, repo)
+    # ... on front numbers that are the Pareto ranks of the WHOLE pool (C02 rules for the sorting the run calls: a sorting that
+    # stops ranking early, or ranks part of the pool by another schema, hands the truncation numbers that are not ranks)
+    from . import c02
+    c02.run_sorting(SubCtx(ctx, "R5", prefix="ranking of the pool: "))
     # ... and on the feasibility marker meaning the same for every design of an unconstrained problem (C05 rule)
     from . import c05
     c05.r3_marker_default(SubCtx(ctx, "R5", prefix="environmental selection: "), repo, rule="R5")
